@@ -27,7 +27,7 @@ RULE += (' '
          'segmented as well.')
 SHRINK_LISTS = [('cutsets',), ('cutsets', '*'), ('bcase', 'items'),
                 ('bcase', 'trailing')]
-EXPECTED_PROBES = ['cut_inside_header', 'cut_inside_reply', 'one_byte_delivery',
+EXPECTED_PROBES = ['large_frame_then_cut', 'cut_inside_header', 'cut_inside_reply', 'one_byte_delivery',
                    'cut_inside_utf8_char', 'variant_runs',
                    'other_connection_interleaved', 'proxy_answer_segmented']
 
@@ -47,7 +47,8 @@ def plan(tier):
     q = tier == 'quick'
     return [('seeded', 1500 if q else 60000),
             ('short_exhaustive', 40 if q else 600),
-            ('reply_cuts', 12 if q else 60)]
+            ('reply_cuts', 12 if q else 60),
+            ('large_frame', 60 if q else 2000)]
 
 
 APP_MODES = ['passive', 'echo', 'closer']
@@ -145,6 +146,29 @@ def make_case(family, i, rng, tier):
                 del bcase['close']
         return {'base': 'C01', 'bcase': bcase, 'app': rng.choice(APP_MODES),
                 'exhaustive': 'frames', 'glue': rng.random() < 0.5}
+    if family == 'large_frame':
+        # a frame of more than 64 / 128 / 256 KiB followed by small ones;
+        # the read that completes the large payload also carries the first
+        # bytes of what follows, and the frame that follows is cut again
+        n = rng.choice([65536, 65537, 131072, 131073, 140000, 262145,
+                        300000])
+        kind = rng.choice(['binary', 'text'])
+        big = {'kind': kind, 'cuts': [], 'lenforms': [None], 'inner': [],
+               'fill': [n, rng.choice(['41', '00ff', '6162637a']
+                                      if kind == 'binary' else
+                                      ['41', '6162637a'])]}
+        after = [{'kind': 'text', 'text': u'the message after the large one',
+                  'cuts': [], 'lenforms': [None], 'inner': []},
+                 {'kind': 'ping', 'hex': '70696e67'},
+                 {'kind': 'binary', 'hex': '8905696e6e6572', 'cuts': [],
+                  'lenforms': [None], 'inner': []}]
+        rng.shuffle(after)
+        items = [big] + after
+        if rng.random() < 0.3:
+            items = [after[0], big] + after[1:]
+        bcase = {'items': items, 'auto_pong': True, 'seg': 'one'}
+        return {'base': 'C01', 'bcase': bcase, 'app': rng.choice(APP_MODES),
+                'large': True, 'cs_seed': rng.getrandbits(32)}
     if family == 'reply_cuts':
         items = [{'kind': 'text', 'text': u'hé', 'cuts': [1],
                   'lenforms': [None, None], 'inner': [[]]},
@@ -233,6 +257,22 @@ def cutsets_for(case, total, rlen, data):
         return allsets[part % nparts::nparts]
     rng = random.Random(case.get('cs_seed', 0))
     sets = []
+    if case.get('large'):
+        frames, _ = peer.decode_frames(data, rlen)
+        bigs = [k for k, f in enumerate(frames) if len(f.payload) >= 65536]
+        for k in bigs[:1]:
+            f = frames[k]
+            nxt = frames[k + 1] if k + 1 < len(frames) else None
+            if nxt is None:
+                continue
+            ln = nxt.end - nxt.start
+            for j in sorted(set([1, 2, 3, ln // 2, ln - 1])):
+                if 0 < j < ln:
+                    sets.append([f.end + j])
+                    sets.append([f.end - rng.randrange(1, 70000), f.end + j])
+            sets.append([f.end + ln + 1])
+            sets.append([f.start + 1, f.end - 1, f.end + 1])
+        return sets
     if total <= 1500:
         sets.append(list(range(1, total)))          # one byte at a time
     sets.append([rlen])                              # reply alone
@@ -360,6 +400,8 @@ def execute(case):
                     '%s %s' % (tr.hang, tr.escaped))
             break
     res.stats['probe:variant_runs'] += nvar
+    if case.get('large') and nvar:
+        res.stats['probe:large_frame_then_cut'] += 1
     if case.get('other'):
         res.stats['probe:other_connection_interleaved'] += 1
     frames, _ = peer.decode_frames(data, rlen)
